@@ -1,5 +1,6 @@
 """spec (pure data) -> fresh spyne classes, services with recording functions, Application."""
 import itertools
+import json
 
 from . import env  # noqa: F401  (path set-up)
 from . import eq, jv
@@ -97,14 +98,18 @@ class Built(object):
             sub = self.cspec[sub]["extends"]
         return False
 
-    def to_native(self, t, j):
-        """tagged JSON value -> native value / spyne instance for type reference t"""
+    def to_native(self, t, j, _memo=None):
+        """tagged JSON value -> native value / spyne instance for type reference t.
+        Equal object values inside one value become ONE shared instance (an object graph
+        with aliasing but without cycles), the way user code builds `Segment(start=p, end=p)`."""
         if j is None:
             return None
+        if _memo is None:
+            _memo = {}
         occ = t.get("occ") or {}
         if occ.get("max", 1) != 1 and t["k"] not in ("attr", "data"):
             t1 = dict(t, occ=dict(occ, max=1))
-            return [self.to_native(t1, x) for x in j]
+            return [self.to_native(t1, x, _memo) for x in j]
         k = t["k"]
         if k == "prim":
             v = jv.dec(j)
@@ -114,16 +119,20 @@ class Built(object):
         if k == "enum":
             return getattr(self.enums[t["n"]], j)
         if k in ("attr", "data"):
-            return self.to_native(t["of"], j)
+            return self.to_native(t["of"], j, _memo)
         if k == "array":
-            return [self.to_native(t["of"], x) for x in j]
+            return [self.to_native(t["of"], x, _memo) for x in j]
         if k == "ref":
             cname = j.get("$obj", t["n"])
+            key = (cname, json.dumps(j, sort_keys=True, default=str))
+            if key in _memo:
+                return _memo[key]
             cls = self.classes[cname]
             inst = cls()
             for fn, ft in self.all_fields(cname):
                 if fn in j["f"]:
-                    setattr(inst, fn, self.to_native(ft, j["f"][fn]))
+                    setattr(inst, fn, self.to_native(ft, j["f"][fn], _memo))
+            _memo[key] = inst
             return inst
         raise ValueError(k)
 
